@@ -44,7 +44,7 @@ pub(crate) fn validate(input: &DataType) -> Result<()> {
     validate_ghost_attrs(&Kind::OwnedIntoExisting, &attrs.ghosts_attrs, &type_paths, &mut errors);
     validate_ghost_attrs(&Kind::RefIntoExisting, &attrs.ghosts_attrs, &type_paths, &mut errors);
 
-    validate_ghost_entries(&attrs.ghosts_attrs, matches!(input, DataType::Enum(_)), &mut errors);
+    validate_ghost_entries(&attrs.ghosts_attrs, matches!(input, DataType::Enum(_)), false, &mut errors);
 
     validate_child_parents_attrs(&attrs.child_parents_attrs, &type_paths, &mut errors);
     validate_where_attrs(&attrs.where_attrs, &type_paths, &mut errors);
@@ -90,7 +90,7 @@ pub(crate) fn validate(input: &DataType) -> Result<()> {
                 validate_dedicated_member_attrs(&member_attrs.pat_attrs, |x| x.container_ty.as_ref(), Some("pattern"), member_span, &type_paths, &mut errors);
                 validate_dedicated_member_attrs(&member_attrs.type_hint_attrs, |x| x.container_ty.as_ref(), Some("type_hint"), member_span, &type_paths, &mut errors);
 
-                validate_ghost_entries(&member_attrs.ghosts_attrs, false, &mut errors);
+                validate_ghost_entries(&member_attrs.ghosts_attrs, false, true, &mut errors);
             },
         }
 
@@ -204,8 +204,12 @@ fn validate_ghost_attrs(kind: &Kind, ghost_attrs: &[GhostsAttr], type_paths: &Ha
     }
 }
 
-fn validate_ghost_entries(ghost_attrs: &[GhostsAttr], enum_level: bool, errors: &mut HashMap<String, Span>) {
+fn validate_ghost_entries(ghost_attrs: &[GhostsAttr], enum_level: bool, variant_level: bool, errors: &mut HashMap<String, Span>) {
     for ghost_data in ghost_attrs.iter().flat_map(|x| &x.attr.ghost_data) {
+        if let (Some(child_path), true) = (&ghost_data.child_path, variant_level) {
+            errors.insert(format!("Child path '{}@' is not expected in #[ghosts(...)] instructions of a variant.", child_path.get_child_path_str(None)), child_path.child_path.span());
+        }
+
         match (&ghost_data.ghost_ident, enum_level) {
             (GhostIdent::Destruction(destr), false) => {
                 errors.insert(format!("Ghost '{}' is a variant pattern. Variant patterns are only expected in #[ghosts(...)] instructions of an enum.", destr), destr.span());
